@@ -24,7 +24,7 @@ from fractions import Fraction
 import numpy as np
 import pandas as pd
 
-sys.path.insert(0, '/repo')
+sys.path.insert(0, os.environ.get('EAO_REPO', '/repo'))
 import eaopack as eao  # noqa: E402
 from eaopack.portfolio import Portfolio, StructuredAsset  # noqa: E402
 
